@@ -263,7 +263,7 @@ def body(run):
             od = run.work / ('flags' + ''.join(flags).replace('-', '_'))
             od.mkdir()
             del seen[:]
-            r = CliRunner().invoke(hcli.cli, ['fuse', '-od', str(od)] + flags + [str(pair['src_fn']), str(pair['ref_fn'])])
+            r = CliRunner().invoke(hcli.cli, ['fuse', '-k', '3', '3', '-od', str(od)] + flags + [str(pair['src_fn']), str(pair['ref_fn'])])      # (the pair was drawn workable for a 3 x 3 kernel)
             run.count_case(('flags', tuple(flags)), True, None)
             got = {k2: seen[-1].get(k2) for k2 in want} if seen else None
             if r.exit_code != 0 or got != want:
